@@ -13,7 +13,7 @@ import (
 )
 
 func init() {
-	Explanations["C02"] = "Decides structural necessary conditions of 'chain state depends only on the best chain' as sibling agreement between the store's apply and revert sides in chain/db.go: (R1) for the three element-diff kinds the loops of the apply-side and revert-side functions are decomposed into branch classes (ephemeral / spent-or-resolved / revised / created, recognised from the conditions on the diff's own fields) and each class is summarised as a multiset of store effects put(prior|revised element), delete, putExp(prior|revised window, flag), delExp(window), optionally under the window-changed guard; the revert side must equal the algebraic inverse of the apply side class by class (put↔delete, put(revised)→put(prior), putExp(w,true)↔delExp(w), delExp(w)→putExp(w,false)), apply must append (flag true) and revert prepend (flag false), and on both sides no effect is reachable for a diff that is both created and spent/resolved; (R2) DBStore.ApplyBlock and RevertBlock gate element work with the same comparison against HardforkV2.RequireHeight; (R3) both sides forward every ForEachTreeNode node to the tree bucket with the same key function; (R4) the state functions are inverse: apply puts the best-index entry and Height, revert deletes the entry above the new tip and sets Height (shared with C03.R4). NOT decided: that core's diffs are themselves inverse, byte equality with a linear node, Merkle proof arithmetic, the expiring-order override table."
+	Explanations["C02"] = "Decides structural necessary conditions of 'chain state depends only on the best chain' as sibling agreement between the store's apply and revert sides in chain/db.go: (R1) for the three element-diff kinds the loops of the apply-side and revert-side functions are decomposed into branch classes (ephemeral / spent-or-resolved / revised / created, recognised from the conditions on the diff's own fields) and each class is summarised as a multiset of store effects put(prior|revised element), delete, putExp(prior|revised window, flag), delExp(window), optionally under the window-changed guard; the revert side must equal the algebraic inverse of the apply side class by class (put↔delete, put(revised)→put(prior), putExp(w,true)↔delExp(w), delExp(w)→putExp(w,false)), apply must append and revert prepend — the order is read from the body of the expiration helper called (where the id's bytes stand in its `append`, selected by the boolean argument when the helper has one) —, the functions are analysed with their helpers (a diff classifier, shared bodies) expanded, and on both sides no effect is reachable for a diff that is both created and spent/resolved; (R2) DBStore.ApplyBlock and RevertBlock gate element work with the same comparison against HardforkV2.RequireHeight; (R3) both sides forward every ForEachTreeNode node to the tree bucket with the same key function; (R4) the state functions are inverse: apply puts the best-index entry and Height, revert deletes the entry above the new tip and sets Height (shared with C03.R4). NOT decided: that core's diffs are themselves inverse, byte equality with a linear node, Merkle proof arithmetic, the expiring-order override table."
 
 	register(&Rule{ID: "C02.R1", Prop: "C02", Floor: 16, Doc: "inverse-effect table: revert undoes exactly what apply did, class by class, and both skip ephemeral diffs", Run: c02r1})
 	register(&Rule{ID: "C02.R2", Prop: "C02", Floor: 1, Doc: "apply and revert use the same height gate for element work", Run: c02r2})
